@@ -177,14 +177,42 @@ class Gen:
         hk = self.r.choice(list(self.hreg)); k, kind = self.hreg[hk]; u = self.r.random()
         if u < 0.12: k = self.anyreg()                    # wrong inode for this handle
         if u > 0.9: kind = 'dir' if kind == 'file' else 'file'
-        self.emit('%s %d %d' % ('releasedir' if kind == 'dir' else 'release', k, hk))
+        self.emit('%s %d %d%s' % ('releasedir' if kind == 'dir' else 'release', k, hk, self.rel_fields()))
         if u >= 0.12: self.hreg.pop(hk, None)
+    def rel_fields(self):
+        """the other fields of a RELEASE request: flush (FUSE_RELEASE_FLUSH), flock_release, flags, lock_owner"""
+        f = ''
+        if self.r.random() < 0.5: f += ' flush'
+        if self.r.random() < 0.2: f += ' flock'
+        if self.r.random() < 0.3: f += ' flags%d' % self.r.choice([2, 1, 32768])
+        if self.r.random() < 0.3: f += ' lock%d' % self.r.choice([0, 7, 18446744073709551615])
+        return f
+    def emfile_block(self, dirkind):
+        """descriptor exhaustion (RLIMIT_NOFILE lowered for one request so that its first descriptor allocation fails):
+        OPEN fails and gains nothing; on an open handle FLUSH fails (its dup()), RELEASE with the flush flag must still
+        release (it allocates nothing); afterwards the handle is gone"""
+        k = self.nreg; self.nreg += 1; self.reg[k] = None
+        hk0 = self.nh; hk = self.nh + 1; self.nh += 2
+        nm, op, rel = ('d1', 'opendir', 'releasedir') if dirkind else ('f', 'open', 'release')
+        self.emit('fail 1 lookup %d 0 %s' % (k, nm))
+        self.emit('lookup %d 0 %s' % (k, nm))
+        self.emit('fail 1 %s %d %d' % (op, hk0, k))
+        self.emit('%s %d %d' % (op, hk, k))
+        self.emit('fail 1 use %d %d flush lock3' % (k, hk))
+        self.emit('fail 1 use %d %d %s ds' % (k, hk, 'fsyncdir' if dirkind else 'fsync'))
+        self.emit('fail 1 %s %d %d flush lock3' % (rel, k, hk))
+        self.emit('use %d %d lseek' % (k, hk))
+        self.emit('fail 1 create %d %d 0 %s 0' % (self.nreg, self.nh, self.newname())); self.nreg += 1; self.nh += 1
+        self.emit('fail 2 create %d %d 0 %s 0' % (self.nreg, self.nh, self.newname())); self.nreg += 1; self.nh += 1
+        self.emit('fail 1 mknod %d 0 %s reg' % (self.nreg, self.newname())); self.nreg += 1
+        self.emit('bforget %d:1000' % k)
     def op_use(self):
         hk = self.r.choice(list(self.hreg) + [self.nh + 2]) if self.hreg else self.nh + 2
         k, kind = self.hreg.get(hk, (self.anyreg(), 'file'))
         if self.r.random() < 0.25: k = self.anyreg()
         what = self.r.choice(['getattr', 'fsync', 'flush', 'lseek'] if kind == 'file' else ['getattr', 'fsyncdir', 'lseek'])
-        self.emit('use %d %d %s' % (k, hk, what))
+        extra = ' ds' if what.startswith('fsync') and self.r.random() < 0.5 else (' lock%d' % self.r.choice([1, 9]) if what == 'flush' and self.r.random() < 0.5 else '')
+        self.emit('use %d %d %s%s' % (k, hk, what, extra))
     # ---- deterministic blocks: every kind of handle x every request that takes a handle x both release opcodes
     HKINDS = ['open-file', 'open-dir', 'opendir']
     HUSES = ['read', 'write', 'readdir', 'readdirplus', 'fsync', 'fsyncdir', 'flush', 'getattr', 'setattr', 'fallocate', 'lseek']
@@ -201,7 +229,7 @@ class Gen:
             self.emit('%s %d %d 4096 last 100' % (use, k, hk))
         else:
             self.emit('use %d %d %s' % (k, hk, use))
-        self.emit('%s %d %d' % (rel, k, hk))
+        self.emit('%s %d %d%s' % (rel, k, hk, self.rel_fields()))
         self.emit('bforget %d:1000' % k)
     def batch_block(self, pos):
         """two references, then one BATCH_FORGET naming them and the root at place `pos` (0 first, 1 middle, 2 last)"""
@@ -235,6 +263,7 @@ class Gen:
             # in every history: a listing through a handle obtained by OPEN on a directory inode, and a failing
             # READ on an OPENDIR handle that was listed, each released; then a slice of the systematic blocks
             self.batch_block((self.block_base // 8) % 3)
+            self.emfile_block((self.block_base // 8) % 2 == 1)
             self.handle_block('open-dir', 'readdir', 'release' if self.block_base % 2 else 'releasedir')
             self.handle_block('opendir', 'read' if self.block_base % 4 < 2 else 'write', 'releasedir')
             self.handle_blocks(self.block_base, self.blocks)
@@ -243,7 +272,12 @@ class Gen:
         while len(self.lines) < n:
             if sp_at >= 0 and len(self.lines) >= sp_at:
                 sp_at = -1; self.op_create_special(); continue
+            n0 = len(self.lines)
             self.r.choices(fs, ws)[0]()
+            if self.profile == 'c15' and len(self.lines) == n0 + 1 and self.r.random() < 0.08:
+                w0 = self.lines[-1].split()[0]
+                if w0 in ('lookup', 'create', 'mknod', 'mkdir', 'open', 'opendir', 'release', 'releasedir', 'use', 'forget', 'link'):
+                    self.lines[-1] = 'fail %d %s' % (self.r.choice([1, 1, 2, 3]), self.lines[-1])
         if self.profile == 'c15' or self.r.random() < 0.3: self.op_release_all()
         return self.lines
 
@@ -289,7 +323,8 @@ def inode_op(rec, fx, root_host):
         if rec['res'] == 0: return '(OOk %d)' % rec['ino']
         return '(OErrno %d)' % rec['res']
     if o == 'lookup':
-        return '(OLookup %d %s)' % (rec['p'], coq_opt_target(rec['host'], fx)), orep()
+        # EMFILE / ENFILE: the host refused a descriptor to the server (injected): the name was not resolved for it
+        return '(OLookup %d %s)' % (rec['p'], coq_opt_target(None if rec['res'] in (23, 24) else rec['host'], fx)), orep()
     if o in ('mkdir', 'mknod', 'symlink'):
         # the host answer: the call succeeded iff the server says so (a failed call leaves the name unresolved or pre-existing)
         return '(OEntry %d %s)' % (rec['p'], coq_opt_target(rec['host'] if rec['res'] == 0 else None, fx)), orep()
@@ -299,6 +334,7 @@ def inode_op(rec, fx, root_host):
         ex = rec['existed']
         t = rec['host']
         if ex and rec['excl']: t = None                   # O_EXCL on an existing name: EEXIST before do_lookup
+        if rec['res'] in (23, 24): t = None                # descriptor exhaustion before / in do_lookup: nothing inserted
         return '(OCreate %d %s %s %s)' % (rec['p'], coq_opt_target(t, fx), coq_bool(ex), coq_bool(rec['res'] == 0)), orep()
     if o == 'forget':
         return '(OForget %d %d)' % (rec['ino'], rec['count']), 'OUnit'
